@@ -28,8 +28,20 @@ THEOREMS = ["Pt.affEq_iff", "Pt.isNonNeg_iff", "Pt.broadcast_decision_sound",
 PARAMS = ["n", "m", "k"]
 
 
+N_FORMS = 6
+
+
 def build_dim(coeffs, form, sp):
-    """pytato expression for c0 + sum c_i * p_i in syntactic form `form` (0..3)"""
+    """pytato expression for c0 + sum c_i * p_i in syntactic form `form` (0..5); forms 4 and 5 are DEGENERATE
+    spellings: they mention a parameter the value does not depend on (e + q - q, e + 0*q) or pass through a
+    cancelling detour ((e + e) - e)"""
+    if form >= 4:
+        e = build_dim(coeffs, form - 4, sp)
+        unused = [p for p, c in zip(PARAMS, coeffs[1:]) if c == 0]
+        q = sp[unused[0]] if unused else sp[PARAMS[0]]
+        if form == 4:
+            return (e + q) - q if not isinstance(e, int) or True else e
+        return (e + 0 * q) if hash((coeffs, form)) % 2 else (2 * e + q) - (e + q)
     c0, cs = coeffs[0], coeffs[1:]
     terms = []
     for p, c in zip(PARAMS, cs):
@@ -146,7 +158,7 @@ def batch_affine(ctx):
                 b[rng.randrange(1 + np_)] += rng.choice([-1, 1])
         else:
             b = [rng.choice(box) for _ in range(1 + np_)] + [0] * (3 - np_)
-        cases.append((tuple(a), tuple(b), rng.randrange(4), rng.randrange(4)))
+        cases.append((tuple(a), tuple(b), rng.randrange(N_FORMS), rng.randrange(N_FORMS)))
     queries, real = [], []
     for a, b, fa, fb in cases:
         da, db = build_dim(a, fa, sp), build_dim(b, fb, sp)
@@ -222,7 +234,7 @@ def batch_consumers(ctx):
                 b = [max(0, x) for x in b]
         else:
             b = [rng.choice(box) for _ in range(1 + np_)] + [0] * (3 - np_)
-        pairs.append((tuple(a), tuple(b), rng.randrange(4), rng.randrange(4)))
+        pairs.append((tuple(a), tuple(b), rng.randrange(N_FORMS), rng.randrange(N_FORMS)))
     f64 = np.float64
 
     def mk(name, shape):
@@ -303,7 +315,9 @@ def sym_programs(ctx, count):
     rng = random.Random(ctx.seed * 613 + 160)
     for pi in range(count):
         n, m = pt.make_size_param("n"), pt.make_size_param("m")
-        dims = [n, m, n + 1, 2 * n, 3, 1, 2]
+        # (incl. degenerate spellings: a length that is identically 1, a parameter that cancels)
+        dims = [n, m, n + 1, 2 * n, 3, 1, 2, (n + 1) - n, (n + m) - m, 2 * n - n]
+        one_sym = (n + 1) - n
         phs = {}
 
         def leaf(shape, dtype=np.float64):
@@ -324,7 +338,7 @@ def sym_programs(ctx, count):
                              "expand", "bcast_to"])
             try:
                 if op == "binary":
-                    bshape = tuple(d if rng.random() < 0.7 else 1 for d in a.shape)
+                    bshape = tuple(d if rng.random() < 0.7 else rng.choice([1, 1, one_sym]) for d in a.shape)
                     bshape = bshape[rng.randint(0, len(bshape)):] if rng.random() < 0.3 else bshape
                     b = leaf(bshape)
                     e = rng.choice([lambda x, y: x + y, lambda x, y: x * y, lambda x, y: x - y,
@@ -458,6 +472,21 @@ def batch_symbolic(ctx):
     return progs
 
 
+def _degenerate_leaf_shapes(phs) -> bool:
+    from pytato.array import Array
+    from pytato.transform import InputGatherer
+    for shape, _ in phs.values():
+        for d in shape:
+            if isinstance(d, Array):
+                params = sorted(p.name for p in InputGatherer()(d))
+                base = {"n": 2, "m": 3}
+                v0 = RefEval({}, base).dim(d)
+                for q in params:
+                    if RefEval({}, dict(base, **{q: base.get(q, 2) + 5})).dim(d) == v0:
+                        return True
+    return False
+
+
 def batch_kernels(ctx, progs):
     """one compiled kernel per program, executed at several sizes"""
     try:
@@ -477,8 +506,11 @@ def batch_kernels(ctx, progs):
             inp = concrete_inputs(phs, sizes, nprng)
             runs.append((sizes, inp))
         from .c01 import _prep_dedup
+        # every kernel is also interpreted instruction by instruction (kernel read-back); kernels whose INPUT
+        # shapes are degenerate spellings (a length that mentions a parameter it does not depend on) are only
+        # interpreted: loopy's host-side C invoker cannot solve for such a parameter and crashes
         jobs.append(cexec.Job(tag=f"sym{pi}", expr=expr, runs=[dict(inp, **sz) for sz, inp in runs],
-                              prep=_prep_dedup))
+                              prep=_prep_dedup, kir_orders=1, no_exec=_degenerate_leaf_shapes(phs)))
     results = cexec.run_jobs(ctx, jobs)
     cases = dis = 0
     for (pi, expr, phs), job, res in zip(progs[:lim], jobs, results):
@@ -489,6 +521,26 @@ def batch_kernels(ctx, progs):
                           f"program {pi}: {res.error[:300]}", {"program_index": pi, "error": res.error,
                                                                "seed": ctx.seed})
             continue
+        k = res.kir or {}
+        if "outputs" in k and not ("shape_error" in k or "error" in k):
+            for ri, run_in in enumerate(job.runs):
+                if ri >= len(k["outputs"]):
+                    break
+                cases += 1
+                sizes = {kk: v for kk, v in run_in.items() if kk in ("n", "m")}
+                inp = {kk: v for kk, v in run_in.items() if kk not in ("n", "m")}
+                ref = evaluate(expr, inp, sizes)
+                got = k["outputs"][ri].get("_pt_out", next(iter(k["outputs"][ri].values()), None))
+                if got is None or not close(got, ref):
+                    dis += 1
+                    ctx.violation("symbolic-kernel:interpreted-value-mismatch",
+                                  f"the kernel generated once for symbolic program {pi}, interpreted instruction by instruction "
+                                  f"at sizes {sizes}, differs from NumPy",
+                                  {"program_index": pi, "sizes": sizes, "seed": ctx.seed,
+                                   "observed": None if got is None else np.asarray(got).tolist(), "expected": ref.tolist()})
+                    break
+        elif "shape_error" in k or "error" in k:
+            ctx.broken.append(f"kernel-readback:{(k.get('shape_error') or k.get('error'))[:80]}:sym{pi}")
         for run_in, out in zip(job.runs, res.outputs):
             cases += 1
             sizes = {k: v for k, v in run_in.items() if k in ("n", "m")}
